@@ -21,6 +21,8 @@ fn main() {
     "c09" => vh::engines::c09::run(),
     "c10" => vh::engines::c10::run(),
     "c11" => vh::engines::c11::run(),
+    "c12" => vh::engines::c12::run(),
+    "c12worker" => vh::engines::c12::worker(&args[2..]),
     "c13" => vh::engines::c13::run(),
     "c14" => vh::engines::c14::run(),
     "c15" => vh::engines::c15::run(),
